@@ -7,7 +7,7 @@ from props import C01, rwcommon as rc
 ID = "C10"
 PROP_FILE = "props/C10.v"
 COQ_TARGETS = ["props/C10.v", "model/FragLoop.v", "model/FragFun.v", "model/FragProg.v"]
-THEOREMS = ["C10_guard_branches_agree", "C10_erase_sound", "C10_frag_results", "C10_frag_plain", "C10_frag_stream", "C10_fun_results", "C10_fun_plain", "C10_fun_stream", "C10_prog_results", "C10_prog_plain", "C10_prog_stream"]
+THEOREMS = ["C10_guard_branches_agree", "C10_erase_sound", "C10_docstrings_kept", "C10_docstrings_erased", "C10_frag_results", "C10_frag_plain", "C10_frag_stream", "C10_fun_results", "C10_fun_plain", "C10_fun_stream", "C10_prog_results", "C10_prog_plain", "C10_prog_stream"]
 TRUSTED_BASE = C01.TRUSTED_BASE + [
     "model/FragLoop.v (while loops, the two guards of a loop, pristine copies, try / finally, evaluation under an arbitrary guard policy on fuel, the gated reference "
     "stream), tied by K-loop (tools/impl/c10_sem.py: real rewriter output tree with guard names canonicalised to (kind, loop), real runs whose handler activates / "
@@ -52,11 +52,16 @@ def gen_silence_case(rng):
     events = sorted(set(["after_for_loop_iter", "after_while_loop_iter"] + [e for e in direct if rng.random() < 0.5]))
     import battery
     src = battery.programs()["loops"] if rng.random() < 0.2 else rc.gen_program(rng, nstmts=rng.choice([3, 4, 5]))
+    if rng.random() < 0.3:
+        # definitions with docstrings inside a loop body: the guarded-off copy of the body must define the same objects
+        k = rng.randrange(100, 999)
+        src += ("for i%d in range(3):\n    def fd%d(p=1):\n        \"\"\"doc %d\"\"\"\n        return p\n"
+                "    class Kd%d:\n        \"\"\"kdoc\"\"\"\n        def m(self):\n            'mdoc'\n            return 1\n" % (k, k, k, k))
     c = {"src": src, "events": events, "guards": True, "silence": True, "export": False}
     if rng.random() < 0.5:
         # a guard-exempt handler on some expression-level events: the ordinary handler must still be silenced
         pool = [e for e in events if e in ("load_name", "after_int", "after_binop", "after_call", "after_argument", "after_assign_rhs", "after_compare", "after_attribute_load",
-                                           "after_subscript_load", "left_binop_arg", "right_binop_arg", "after_bool", "after_string", "after_none")]
+                                           "after_subscript_load", "left_binop_arg", "right_binop_arg", "after_bool", "after_string", "after_none", "after_expr_stmt")]
         c["exempt_events"] = [e for e in pool if rng.random() < 0.6] or pool[:1]
         if not c["exempt_events"]:
             del c["exempt_events"]
@@ -114,8 +119,24 @@ def run(ctx, model_ok):
     # general loop silence: generated programs, every loop guard activated at its first hand-out
     ls = [dict(x) for x in getattr(ctx, "known_replays", []) + getattr(ctx, "fixed_replays", []) if x.get("silence")]
     ls += [gen_silence_case(rng) for _ in range(60 if ctx.tier == "quick" else 600)]
+    for c in ls:
+        c["export"] = True            # the guarded-off copies (with the emissions kept for guard-exempt handlers) are certified too
     limpl = C01.run_impl(ls)
     nsil = 0
+    if model_ok:
+        rows = [(i, im) for i, im in enumerate(limpl) if "src_tree" in im and im["out_nodes"] <= 9000]
+        cres = rc.certificates([(im["src_tree"], im["out_tree"]) for _, im in rows])
+        bad = [(i, ok) for (i, _), ok in zip(rows, cres) if ok is not True]
+        r["traces_validated"] = r.get("traces_validated", 0) + len(rows) - len(bad)
+        r["distribution"]["silence_certificates_checked"] = len(rows)
+        r["distribution"]["silence_certificates_ok"] = len(rows) - len(bad)
+        r["distribution"]["silence_programs_with_exempt_handlers"] = sum(1 for c in ls if c.get("exempt_events"))
+        if bad:
+            i, ok = bad[0]
+            ctx.tie_broken("certificate", "erase (rewriter output) <> norm source, or a docstring position not kept, on %d of %d loop-silence programs"
+                           % (len(bad), len(rows)),
+                           json.dumps({"case": {k: ls[i][k] for k in ("src", "events", "guards", "exempt_events", "silence") if k in ls[i]},
+                                       "coqc_failed": ok is None, "rejected_by": {"erase": "check_erase", "docs": "check_docs"}.get(ok)})[-3000:])
     for c, im in zip(ls, limpl):
         nsil += im.get("silenced", 0)
         f = oracle_loop_silence(c, im)
